@@ -42,6 +42,9 @@ partial def resOf (j : Json) : Except String Res := do
   let cs ← (← J.arr (← J.idx j 2)).mapM resOf
   pure (.node r t cs)
 
+def rootEqual : Res → Bool
+  | .node r _ _ => r == none || r == some "equal"
+
 /-- op "cmp": c = {"a": m, "b": m, "ign": [comment, attribute, define, valuetables]}; impl i = {"ab": tree, "ba": tree} -/
 def handle (op : String) (c i : Json) : Except String (Json × String) := do
   match op with
@@ -60,6 +63,9 @@ def handle (op : String) (c i : Json) : Except String (Json × String) := do
          else "fail: matrices agree on every compared property but a difference is reported")
       else if reportsNothing iba != SpecCompare.agree ign b a then "fail: (swapped operands) report and agreement differ"
       else if !SpecCompare.swapOk iab iba then "fail: swapping the operands does not swap additions and deletions"
+      -- the verdict of the result as a whole (what a caller and the command line tool look at) must say the same as its leaves
+      else if rootEqual iab != reportsNothing iab || rootEqual iba != reportsNothing iba then
+        "fail: the result as a whole says 'equal' although a difference is listed below it (or the other way round)"
       else "ok"
     pure (m, s)
   | "flags" =>
